@@ -286,6 +286,17 @@ def emit_fn(card, repo, out, info, twin=False):
     for (hname, where, anchor, occ, htext) in card.hints:
         k = 0
         done = False
+        if where in ('start', 'end'):
+            mark = '\n\x00HINT:%s\x00\n' % hname
+            if where == 'start':
+                seg = hinted[0]
+                p0 = seg[1].index('{')
+                seg[1] = seg[1][:p0 + 1] + mark + seg[1][p0 + 1:]
+            else:
+                seg = hinted[-1]
+                p0 = seg[1].rindex('}')
+                seg[1] = seg[1][:p0] + mark + seg[1][p0:]
+            continue
         for seg in hinted:
             if seg[0] != 'body':
                 continue
@@ -417,6 +428,8 @@ def emit_type(repo, file, name, derive, out, info, codes=None, rename=None, subs
         text = re.sub(r'^(\s*\w+)\s*=\s*(0x[0-9a-fA-F]+|\d+)\s*,', r'\1,', text, flags=re.M)
     if derive:
         out.add('#[derive(%s)]' % derive, None)
+    for fm in re.finditer(r'\b(\w+)\s*:\s*Vec<\s*(\w+)\s*,', text):
+        R.HVEC_ELEM[fm.group(1)] = fm.group(2)
     out.add(text, {'type': name})
     if codes:
         if not pairs:
@@ -518,7 +531,7 @@ def generate(repo, template_paths, twin=False):
                 for t in toks[3:]:
                     if t.startswith('occ='):
                         occ = int(t[4:])
-                cur = ('hint', toks[0], toks[1], toks[2], occ)
+                cur = ('hint', toks[0], toks[1], toks[2] if len(toks) > 2 else '', occ)
             elif d == 'end':
                 flush()
                 emit_fn(card, repo, out, info, twin=twin and card.mode != 'assumed' and 'notwin' not in card.opts)
